@@ -5,8 +5,9 @@ base = json.load(open("/root/.vp/BASELINE.json"))
 fd, path = tempfile.mkstemp(suffix=".xml"); os.close(fd)
 env = dict(os.environ); env.pop("URLLIB3_VERIF", None)
 cmd = base["cmd"].replace("<file>", path)
-if len(sys.argv) > 1:
+if len(sys.argv) > 1:   # a scratch worktree / copy of the repository: import urllib3 from there
     cmd = cmd.replace("cd /repo", "cd " + sys.argv[1])
+    env["PYTHONPATH"] = os.path.join(sys.argv[1], "src")
 p = subprocess.run(cmd, shell=True, env=env, stdout=subprocess.PIPE, stderr=subprocess.STDOUT, text=True)
 passed = set()
 try:
